@@ -195,9 +195,11 @@ def interval_cases(ctx, env_ctl, live):
     from deep.config.tracepoint_config import TracepointConfigService
     from deep.poll.poll import LongPoll
     lits, cj = [], []
-    for n in [1, 2, 5, 10, 30, 60, 600, 3600]:
+    for n in [1, 2, 5, 10, 30, 60, 600, 3600, 0.5, 2.5, 20.0]:
         for how in ("code", "env", "code-text"):
-            v = n if how == "code" else str(n)
+            v = n if how == "code" else ("%g" % n if isinstance(n, float) and how != "code" else str(n))
+            if isinstance(n, float) and n == 20.0 and how != "code":
+                v = "2e1"                      # any text float() accepts
             env_ctl.apply({"POLL_TIMER": v} if how == "env" else {})
             cfg = ConfigService({} if how == "env" else {"POLL_TIMER": v}, tracepoints=TracepointConfigService())
             lp = LongPoll(cfg, None)
@@ -220,9 +222,13 @@ def interval_cases(ctx, env_ctl, live):
                 ctx.fail("POLL_TIMER=%r (%s): the poll timer cannot compute its wait: %r" % (v, how, e), j, tag="interval-raise")
                 continue
             if not ok:
-                ctx.fail("POLL_TIMER=%r (%s): wait %r is not within (0, %d]" % (v, how, wait, n), j, tag="interval-wrong")
-            lits.append("{| ic_val := %s; ic_obs := %s |}" % (enc_cv(v), L.nat(int(t.interval))))
-            cj.append(j)
+                ctx.fail("POLL_TIMER=%r (%s): wait %r is not within (0, %s]" % (v, how, wait, n), j, tag="interval-wrong")
+            if float(t.interval) != float(n):
+                ctx.fail("POLL_TIMER=%r given through %s: the poll interval is %r seconds, the setting says %r (the same key given in code "
+                         "as a number is honoured)" % (v, how, t.interval, n), j, tag="interval-differs-by-source")
+            if isinstance(n, int):
+                lits.append("{| ic_val := %s; ic_obs := %s |}" % (enc_cv(v), L.nat(int(t.interval))))
+                cj.append(j)
     ctx.correspond("interval", IMPORTS, "interval_case", "check_interval_case", lits, cj)
     if live:
         # liveness of the real timer thread with the interval taken from the environment
@@ -247,6 +253,43 @@ def interval_cases(ctx, env_ctl, live):
         if not alive or len(hits) < 2:
             ctx.fail("DEEP_POLL_TIMER=1: poll timer thread died or never polled again (%s)" % (errs[:1],),
                      dict(setting="POLL_TIMER", how="env", value="1"), tag="interval-raise")
+
+
+def history_cases(ctx, env_ctl, n):
+    """Resolution does not depend on what was asked before: one long-lived service is asked for keys while DEEP_<KEY> variables
+    appear, change and disappear between the questions; every answer equals the answer of a fresh service under the same
+    environment."""
+    from deep.config.config_service import ConfigService
+    from deep.config.tracepoint_config import TracepointConfigService
+    rng = ctx.rng
+    keys = ["SERVICE_USERNAME", "SERVICE_PASSWORD", "PLUGIN_MYPLUGIN", "SOME_FUTURE_KEY", "POLL_TIMER", "SERVICE_SECURE", "APP_ROOT"]
+    for _ in range(n):
+        code = {k: rng.choice(["from-code", 7]) for k in rng.sample(keys, rng.choice([0, 0, 1]))}
+        env_ctl.apply({})
+        old = ConfigService(dict(code), tracepoints=TracepointConfigService())
+        env, steps = {}, []
+        for _s in range(rng.choice([2, 3, 5, 8])):
+            k = rng.choice(keys)
+            r = rng.random()
+            if r < 0.45:
+                env[k] = rng.choice(["v1", "v2", "False", "5"])
+            elif r < 0.6:
+                env.pop(k, None)
+            # (the documented defaults are read when deep.config is imported: only the DEEP_ variables themselves change here)
+            for kk in [x for x in os.environ if x.startswith("DEEP_")]:
+                del os.environ[kk]
+            for kk, vv in env.items():
+                os.environ["DEEP_" + kk] = vv
+            ask = rng.choice(keys)
+            got = getattr(old, ask)
+            fresh = getattr(ConfigService(dict(code), tracepoints=TracepointConfigService()), ask)
+            steps.append(dict(environment=dict(env), asked=ask, long_lived=repr(got), fresh=repr(fresh)))
+            if repr(got) != repr(fresh):
+                j = dict(code=code, history=steps)
+                ctx.fail("after the history %s a long-lived service answers %r for %s, a fresh service under the same environment answers %r" % (
+                    [(s_["asked"], sorted(s_["environment"])) for s_ in steps], got, ask, fresh), j, kind="history", tag="depends-on-history")
+                break
+        ctx.case(dict(code=code, history=[(s_["asked"], sorted(s_["environment"].items())) for s_ in steps]), nontrivial=len(steps) > 2, bucket="history")
 
 
 # ----------------------------------------------------------------------------- frames
@@ -393,6 +436,7 @@ def run(ctx):
         resolve_cases(ctx, env_ctl, 1500 if ctx.thorough else 400)
         bool_cases(ctx, env_ctl)
         interval_cases(ctx, env_ctl, live=True)
+        history_cases(ctx, env_ctl, 300 if ctx.thorough else 60)
         frame_cases(ctx, env_ctl, 6000 if ctx.thorough else 900)
         app_root_cases(ctx, env_ctl)
     finally:
